@@ -165,7 +165,14 @@ func capDensity(n, m int) int {
 }
 
 func genMotif(rt *rapid.T, sp GraphSpec) (int, []iedge) {
-	switch pick(rt, "motif", 8) {
+	which := pick(rt, "motif", 9)
+	if which == 8 {
+		if sp.Parallel {
+			return genBundle(rt, sp)
+		}
+		which = 7
+	}
+	switch which {
 	case 0: // one node with k consecutive out-edges to "earlier" nodes of a cycle (greedy reversal while ranging, F1)
 		k := rapid.IntRange(2, 5).Draw(rt, "k")
 		var es []iedge
@@ -243,6 +250,26 @@ func genMotif(rt *rapid.T, sp GraphSpec) (int, []iedge) {
 		es := []iedge{{0, 2}, {1, 2}, {2, 3}, {0, 3}, {1, 3}, {3, 4}, {0, 4}}
 		return 5, es
 	}
+}
+
+// genBundle: a small random DAG or multigraph skeleton in which ONE edge becomes a bundle of k parallel copies; in a
+// third of the cases k is beyond 256 (byte-sized counters, degree-packed sort keys: seeded/r2-m11 needs a non-source
+// node with >= 257 out-edges next to another source). Cheap: few nodes, many identical edges.
+func genBundle(rt *rapid.T, sp GraphSpec) (int, []iedge) {
+	fam := FamDag
+	if rapid.Bool().Draw(rt, "bundle_cyclic") {
+		fam = FamConn
+	}
+	n, es := genFamily(rt, fam, GraphSpec{MaxN: 6, MaxM: 8, SelfLoops: false, Parallel: true})
+	k := rapid.IntRange(2, 6).Draw(rt, "bundle_k")
+	if chance(rt, "bundle_huge", 1, 3) {
+		k = rapid.IntRange(250, 300).Draw(rt, "bundle_k_huge")
+	}
+	e := es[pick(rt, "bundle_edge", len(es))]
+	for i := 1; i < k; i++ {
+		es = append(es, e)
+	}
+	return n, es
 }
 
 func iota_(n int) []int {
@@ -372,13 +399,15 @@ func genIDs(rt *rapid.T, n int, adversarial bool) []string {
 // ---------------------------------------------------------------------------------------------------------
 // Options
 
-var dyadic = []float64{0, 0.5, 1, 1.5, 2, 3, 4, 5, 7.25, 8, 10, 12.5, 16, 20, 30, 40, 64, 100, 200}
+// dyadic: exactly representable values. The last three sit a hair (2^-10 .. 2^-7) above another value of the list:
+// nearly-equal sizes are what absolute tolerances in the code under test confuse (seeded/r2-m17), and they keep C17 exact.
+var dyadic = []float64{0, 0.5, 1, 1.5, 2, 3, 4, 5, 7.25, 8, 10, 12.5, 16, 20, 30, 40, 64, 100, 200, 8 + 1.0/1024, 40 + 1.0/256, 100 + 1.0/128}
 
 var intDims = []float64{0, 1, 2, 3, 4, 5, 7, 8, 10, 13, 16, 20, 30, 40, 64, 100, 200}
 
 // decimal: values whose sums and halves are NOT exactly representable in binary floating point. A seeded change
 // (seeded/m01) showed that a dyadic-only grid hides comparisons that are only wrong by one ulp.
-var decimal = []float64{0.1, 0.3, 1.1, 2.7, 12.7, 33.3, 40.2, 60.6, 120.3, 1e-3, 99.99, 1.0 / 3.0}
+var decimal = []float64{0.1, 0.3, 1.1, 2.7, 12.7, 33.3, 40.2, 60.6, 120.3, 1e-3, 99.99, 1.0 / 3.0, 1e4, 12345.678}
 
 // dyadicOnly is set by the one property whose oracle needs exact arithmetic (C17, power-of-two scaling)
 var dyadicOnly = false
